@@ -285,6 +285,103 @@ def build4(w, PRE, MOD, TXF):
         raises={'TransactionError': dict(ensures=['heap_same("CS._current_tx")', 'heap_same("Tx._current")', 'heap_same("Tx._savepoints")']),
                 'QueryError': dict(ensures=['heap_same("CS._current_tx")', 'heap_same("Tx._current")', 'heap_same("Tx._savepoints")', 'heap_same("Tx._implicit")']),
                 'ValueError': dict(only_if='not isinstance(ql, qlast.Transaction) or not (%s)' % ' or '.join(ISA(c) for c in ('StartTransaction', 'CommitTransaction', 'RollbackTransaction', 'DeclareSavepoint', 'ReleaseSavepoint', 'RollbackToSavepoint')), ensures=['heap_same("CS._current_tx")'])})
+    # session commands (SET ALIAS / SET MODULE / RESET ...): exactly the aliases of the current state of the current transaction change -- the savepoints taken so far,
+    # the state at transaction start and every other component keep their values (so ROLLBACK / ROLLBACK TO restore the earlier aliases); nothing changes on failure
+    w.refclass('Decl', {'module': 'Obj', 'alias': 'Obj'}); w.classes['Ql']['decl'] = 'Decl'; w.classes['Ql']['alias'] = 'Obj'
+    w.ufunc('MSET', ['Obj', 'Opt[Obj]', 'Obj'], 'Obj'); w.ufunc('MDEL', ['Obj', 'Obj'], 'Obj')
+    w.opaque_exprs['DEFAULT_MODULE_ALIASES_MAP'] = 'Obj'; w.opaque_exprs['s_mod.DEFAULT_MODULE_ALIAS'] = 'Obj'; w.opaque_exprs['s_mod.Module'] = 'Obj'
+    w.ext_methods['Obj.set'] = dict(params={'k': 'Opt[Obj]', 'v': 'Obj'}, returns='Obj', returns_expr='MSET(self, k, v)')
+    w.ext_methods['Obj.delete'] = dict(params={'k': 'Obj'}, returns='Obj', returns_expr='MDEL(self, k)', raises={'KeyError': {}})
+    w.ext_methods['Obj.get_global'] = dict(params={'cls': 'Obj', 'name': 'Obj'}, returns='Obj', raises={'InvalidReferenceError': {}})
+    w.ext_methods['Tx.get_schema'] = dict(params={'std': 'Obj'}, returns='Obj')
+    w.ext_funcs['dbstate.SessionStateQuery'] = dict(params={}, returns='Obj')
+    w.classes['Obj']['std_schema'] = 'Obj'
+    OTH = ' and '.join('%s._current.%s == old(%s._current.%s)' % (tx, f, tx, f) for f in
+                       ['id', 'name', 'local_user_schema', 'global_schema', 'session_config', 'database_config', 'system_config', 'cached_reflection', 'tx', 'migration_state', 'migration_rewrite_state'])
+    SAME = ['heap_same("CS._current_tx")', 'heap_same("Tx._current")', 'heap_same("Tx._savepoints")', 'heap_same("Tx._state0")', 'heap_same("CS._savepoints_log")']
+    w.contract(COMP, '_compile_ql_sess_state', params={'ctx': 'Ctx', 'ql': 'Ql'}, returns='Obj', modifies=['Tx._current'],
+        ensures=['implies(%s, %s._current.modaliases == MSET(old(%s._current.modaliases), ql.decl.alias, ql.decl.module))' % (ISA('SessionSetAliasDecl'), tx, tx),
+                 'implies(%s and not %s, %s._current.modaliases == MSET(old(%s._current.modaliases), None, s_mod.DEFAULT_MODULE_ALIAS))' % (ISA('SessionResetModule'), ISA('SessionSetAliasDecl'), tx, tx),
+                 'implies(%s and not %s and not %s, %s._current.modaliases == DEFAULT_MODULE_ALIASES_MAP)' % (ISA('SessionResetAllAliases'), ISA('SessionSetAliasDecl'), ISA('SessionResetModule'), tx),
+                 'implies(%s and not %s and not %s and not %s, %s._current.modaliases == MDEL(old(%s._current.modaliases), ql.alias))' % (ISA('SessionResetAliasDecl'), ISA('SessionSetAliasDecl'), ISA('SessionResetModule'), ISA('SessionResetAllAliases'), tx, tx),
+                 OTH, 'heap_same_except("Tx._current", %s)' % tx, 'heap_same("CS._current_tx")', 'heap_same("Tx._savepoints")', 'heap_same("Tx._state0")', 'heap_same("CS._savepoints_log")'],
+        raises={'UnknownModuleError': dict(ensures=SAME), 'KeyError': dict(ensures=SAME), 'InternalServerError': dict(ensures=SAME)})
+    # configuration commands: CONFIGURE SESSION changes exactly the session config of the current state (to the operation applied to the old value),
+    # CONFIGURE CURRENT DATABASE exactly the database config, CONFIGURE INSTANCE / SET GLOBAL nothing in the compiler's state; nothing changes on failure.
+    # (that the savepoints / the state at transaction start are left alone is what makes ROLLBACK [TO] restore the earlier configuration)
+    w.enum('Scope', QLT, 'ConfigScope'); w.classes['Ql']['scope'] = 'Scope'
+    w.refclass('Op', {'setting_name': 'Obj'}); w.ufunc('APPLY', ['Op', 'Obj', 'Obj'], 'Obj'); w.ufunc('SPEC', ['Ctx', 'Op'], 'Obj')
+    w.ext_methods['Op.apply'] = dict(params={'spec': 'Obj', 'storage': 'Obj'}, returns='Obj', returns_expr='APPLY(self, spec, storage)', raises={'ConfigurationError': {}})
+    w.classes['Ctx'].update({'dump_restore_mode': 'bool', 'backend_runtime_params': 'Obj', 'bootstrap_mode': 'bool'})
+    w.classes['Obj'].update({'globals': 'Obj', 'expr': 'Obj', 'ast': 'Obj', 'argmap': 'Obj', 'bytes': 'Obj'})
+    XC = {'qlcompiler.compile_ast_to_ir': dict(params={'ql': 'Ql', 'schema': 'Obj', 'options': 'Obj'}, returns='Obj', raises={'QueryError': {}}),
+          'qlcompiler.CompilerOptions': dict(params={'modaliases': 'Obj', 'in_server_config_op': 'bool', 'dump_restore_mode': 'bool'}, returns='Obj'),
+          'pg_compiler.compile_ir_to_sql_tree': dict(params={'ir': 'Obj', 'backend_runtime_params': 'Obj'}, returns='Obj', raises={'QueryError': {}}),
+          '_inject_config_cache_clear': dict(params={'a': 'Obj'}, returns='Obj'),
+          'pg_codegen.generate_source': dict(params={'a': 'Obj', 'pretty': 'bool'}, returns='str'),
+          'describe_params': dict(params={'ctx': 'Ctx', 'ir': 'Obj', 'argmap': 'Obj', 'si': 'none'}, returns='Tuple[Obj,Obj,Obj]'),
+          'ireval.evaluate_to_config_op': dict(params={'ir': 'Obj', 'schema': 'Obj'}, returns='Op', raises={'UnsupportedExpressionError': {}, 'QueryError': {}}),
+          '_get_config_spec': dict(params={'ctx': 'Ctx', 'op': 'Op'}, returns='Obj', returns_expr='SPEC(ctx, op)'),
+          'dbstate.SessionStateQuery': dict(params={'sql': 'bytes', 'is_backend_setting': 'bool', 'is_system_config': 'bool', 'config_scope': 'Scope', 'requires_restart': 'bool',
+                                                    'config_op': 'Opt[Op]', 'globals': 'Opt[Obj]', 'in_type_args': 'Obj', 'in_type_data': 'Obj', 'in_type_id': 'Obj'}, returns='Obj')}
+    CUR = lambda f: '%s._current.%s == old(%s._current.%s)' % (tx, f, tx, f)
+    ALLBUT = lambda skip: ' and '.join(CUR(f) for f in ['id', 'name', 'local_user_schema', 'global_schema', 'modaliases', 'session_config', 'database_config', 'system_config',
+                                                        'cached_reflection', 'tx', 'migration_state', 'migration_rewrite_state'] if f not in skip)
+    w.contract(COMP, '_compile_ql_config_op', params={'ctx': 'Ctx', 'ql': 'Ql'}, returns='Obj', modifies=['Tx._current'],
+        ghost={'g_op': 'Op'},
+        ensures=['implies(ql.scope == Scope.SESSION, %s._current.session_config == APPLY(g_op, SPEC(ctx, g_op), old(%s._current.session_config)) and %s)' % (tx, tx, CUR('database_config')),
+                 'implies(ql.scope == Scope.DATABASE, (%s._current.database_config == APPLY(g_op, SPEC(ctx, g_op), old(%s._current.database_config)) or %s) and %s)' % (tx, tx, CUR('database_config'), CUR('session_config')),
+                 'implies(ql.scope == Scope.INSTANCE or ql.scope == Scope.GLOBAL, %s and %s)' % (CUR('session_config'), CUR('database_config')),
+                 ALLBUT(('session_config', 'database_config')), 'heap_same_except("Tx._current", %s)' % tx,
+                 'heap_same("CS._current_tx")', 'heap_same("Tx._savepoints")', 'heap_same("Tx._state0")', 'heap_same("CS._savepoints_log")'],
+        raises={k: dict(ensures=SAME) for k in ('QueryError', 'ConfigurationError', 'AssertionError')},
+        ghost_after={'config_op = ireval.evaluate_to_config_op(ir, schema=schema)': [('g_op', 'config_op')],
+                     },
+        abstract={'if ir.globals:': dict(assigns={'globals': 'Opt[Obj]'}),
+                  'if isinstance(ir, irast.Statement):': dict(assigns={'cfg_ir': 'Obj'}),
+                  "is_backend_setting = bool(getattr(cfg_ir, 'backend_setting', None))": dict(assigns={'is_backend_setting': 'bool'}),
+                  "requires_restart = bool(getattr(cfg_ir, 'requires_restart', False))": dict(assigns={'requires_restart': 'bool'}),
+                  "is_system_config = bool(getattr(cfg_ir, 'is_system_config', False))": dict(assigns={'is_system_config': 'bool'}),
+                  'pretty = bool(debug.flags.edgeql_compile or debug.flags.edgeql_compile_sql_text)': dict(assigns={'pretty': 'bool'}),
+                  'if pretty:': dict(assigns={})},
+        hints={'ext_funcs': XC, 'ghost_out': ['g_op']})
+    # the entry point of a statement inside a transaction: Compiler.compile_in_tx.  What the statement is compiled against (ghost snapshot taken where the compile context is built):
+    # the compiler state is at the position the server named; if it already was there, the session aliases / config the request carries are in effect;
+    # the recovery path (expect_rollback with an unknown position) never reaches the compiler proper.
+    w.enum('Lang', 'edb/server/compiler/enums.py', 'InputLanguage')
+    w.refclass('Req', {'input_language': 'Lang', 'source': 'Obj', 'modaliases': 'Opt[Obj]', 'session_config': 'Opt[Obj]', 'protocol_version': 'Obj', 'output_format': 'Obj',
+                       'expect_one': 'bool', 'implicit_limit': 'Obj', 'inline_typeids': 'bool', 'inline_typenames': 'bool', 'inline_objectids': 'bool', 'input_format': 'Obj'})
+    w.ext_methods['Req.get_cache_key'] = dict(params={}, returns='Obj')
+    w.refclass('Cmp', {'state': 'Obj'})
+    w.ext_methods['Cmp._try_compile_rollback'] = dict(params={'src': 'Obj'}, returns='Tuple[Obj,int]', raises={'TransactionError': {}})
+    w.ext_methods['Cmp.compile_sql_descriptors'] = dict(params={'a': 'Obj', 'b': 'Obj', 'c': 'Obj', 'd': 'Obj'}, returns='Obj')
+    w.ext_methods['Tx.get_user_schema'] = dict(params={}, returns='Obj')
+    w.classes['Obj']['types_in_out'] = 'Obj'
+    w.classes['Ctx'].update({'output_format': 'Obj', 'expected_cardinality_one': 'bool', 'implicit_limit': 'Obj', 'inline_typeids': 'bool', 'inline_typenames': 'bool',
+                             'inline_objectids': 'bool', 'source': 'Obj', 'protocol_version': 'Obj', 'json_parameters': 'bool', 'cache_key': 'Obj'})
+    w.opaque_exprs['enums.InputFormat.JSON'] = 'Obj'
+    stx = 'state._current_tx'
+    import ast as _ast
+    from pyvc import repo as _repo
+    _fn, _ = _repo.find_def(COMP, 'Compiler.compile_in_tx')
+    # the snapshot is taken where the compile context is built, i.e. at the last statement before the compiler proper runs
+    CTX_ASSIGN = ([_ast.unparse(n) for n in _ast.walk(_fn) if isinstance(n, _ast.Assign) and _ast.unparse(n.targets[0]) == 'ctx'] or ['<ctx assignment not found>'])[0]
+    w.contract(COMP, 'Compiler.compile_in_tx', params={'self': 'Cmp', 'state': 'CS', 'txid': 'int', 'request': 'Req', 'expect_rollback': 'bool'}, returns='Tuple[Obj,Opt[CS]]',
+        requires=[_re.sub(r'\bself\b', 'state', c) for c in PRE] + ['not g_at'],
+        ghost={'g_at': 'bool', 'g_id': 'int', 'g_al': 'Obj', 'g_sc': 'Obj'},
+        modifies=MOD + ['CS._savepoints_log', 'Ctx.state', '$alloc'],
+        ensures=[# whenever the compiler proper was reached (g_at), it ran at the position the server named ...
+                 'implies(g_at, g_id == txid)',
+                 # ... and, if no re-synchronisation was needed, under the aliases / session config carried by the request
+                 'implies(g_at and old(%s._id) == txid and not is_none(request.modaliases), g_al == some(request.modaliases))' % stx,
+                 'implies(g_at and old(%s._id) == txid and not is_none(request.session_config), g_sc == some(request.session_config))' % stx,
+                 'implies(g_at and old(%s._id) == txid and is_none(request.modaliases), g_al == old(%s._current.modaliases))' % (stx, stx),
+                 # SQL parameter descriptions and the recovery path leave the transaction position alone
+                 'implies(not g_at, heap_same("CS._current_tx") and heap_same("Tx._savepoints") and heap_same("Tx._id"))'],
+        raises={'InternalServerError': {}, 'CompileError': {}, 'AssertionError': {}, 'TransactionError': {}, 'NotImplementedError': {}},
+        ghost_after={CTX_ASSIGN: [('g_at', 'True'), ('g_id', '%s._id' % stx), ('g_al', '%s._current.modaliases' % stx), ('g_sc', '%s._current.session_config' % stx)]},
+        abstract={'match request.input_language:': dict(assigns={'unit_group': 'Obj'}, modifies=MOD + ['CS._savepoints_log'], raises=['CompileError', 'NotImplementedError'])},
+        hints={'ghost_out': ['g_at', 'g_id', 'g_al', 'g_sc']})
     return w
 
 def scenarios(tier, seed, repo_root, outdir):
